@@ -1,10 +1,12 @@
 use crate::engine::Ctx;
 
 pub mod c10;
+pub mod c11;
 
 pub fn run(ctx: &Ctx) -> i32 {
     match ctx.prop.as_str() {
         "C10" => c10::run(ctx),
+        "C11" => c11::run(ctx),
         _ => {
             eprintln!("machinery error: no check registered for {}", ctx.prop);
             2
@@ -26,6 +28,7 @@ pub fn replay(ctx: &Ctx, path: &str) -> i32 {
     };
     match ctx.prop.as_str() {
         "C10" => c10::replay(ctx, &body),
+        "C11" => c11::replay(ctx, &body),
         _ => {
             eprintln!("machinery error: no replay registered for {}", ctx.prop);
             2
